@@ -26,7 +26,8 @@ from .core import (Check, EventLog, Violation, HarnessError, World, RngSeam, lib
 
 POLY_ALGS = ("ico", "cube3D", "cube4D")
 DIM = {"ico": 3, "cube3D": 3, "randomS": 3, "zero3D": 3, "cube4D": 4, "randomQ": 4, "fulldiv": 4, "zero4D": 4}
-SPHERE_GETTERS_3D = ("array", "array_full", "adjacency", "borders", "distances", "volumes")
+SPHERE_GETTERS_3D = ("array", "array_full", "adjacency", "borders", "distances", "volumes", "volumes_approx",
+                     "volumes")
 SPHERE_GETTERS_4D = ("array", "array_full", "adjacency", "borders", "distances", "volumes", "hull_measures")
 FULL_GETTERS = ("full_array", "total_volumes", "full_adjacency", "full_borders", "full_distances",
                 "position_volumes", "position_adjacency", "position_borders", "position_distances",
@@ -67,6 +68,8 @@ def call_getter(obj, spec: dict, getter: str):
             return obj.get_center_distances()
         if getter == "volumes":
             return obj.get_spherical_voronoi().get_voronoi_volumes()
+        if getter == "volumes_approx":
+            return obj.get_spherical_voronoi().get_voronoi_volumes(approx=True)
         if getter == "hull_measures":
             hulls = obj.get_spherical_voronoi().get_convex_hulls()
             return np.array([[h.area, h.volume] for h in hulls])
@@ -259,7 +262,16 @@ class SessionCheck(Check):
         # a small pool of specs per history so that objects of the same spec meet each other
         pool = [self._gen_sphere_spec(rng, tier) for _ in range(rng.randint(2, 4))]
         if rng.random() < 0.6:
-            pool.append(self._gen_full_spec(rng, tier))
+            fs = self._gen_full_spec(rng, tier)
+            pool.append(fs)
+            if rng.random() < 0.5:
+                # the same three grid names with another metric factor / position mode, alive in the same history
+                twin = dict(fs)
+                if rng.random() < 0.5 or twin["o"] in ("1", "2", "3"):
+                    twin["factor"] = {2: 3.3, 1: 2, 0.5: 1, 3.3: 0.5}[twin["factor"]]
+                else:
+                    twin["cartesian"] = not twin["cartesian"]
+                pool.append(twin)
         slots = {}  # slot -> spec (generation-time model of the live objects)
         ops = []
         restarted = False
